@@ -141,6 +141,7 @@ class Tally:
         self.graphs = 0
         self.traces = 0
         self.distinct = set()
+        self.forms = {}        # role:form -> number of real calls with an atom passed in that AtomLike form
         self.by_label = {}
         self.max_atoms = 0
         self.generated = 0
@@ -158,6 +159,15 @@ class Tally:
             d["queries"] += 1
             if e["ev"] == "bfs":
                 self.yields += len(e["y"])
+                for k in (f"start:{e.get('fs')}", f"direction:{e.get('fd')}"):
+                    self.forms[k] = self.forms.get(k, 0) + 1
+                if e["d"] == 1 and e.get("fd") == "index":
+                    self.forms["direction passed as the integer 0"] = self.forms.get("direction passed as the integer 0", 0) + 1
+                if e["s"] == 1 and e.get("fs") == "index":
+                    self.forms["start passed as the integer 0"] = self.forms.get("start passed as the integer 0", 0) + 1
+            if e["ev"] == "local":
+                for k in e.get("fa", ()):
+                    self.forms[f"atom-argument:{k}"] = self.forms.get(f"atom-argument:{k}", 0) + 1
             if e["ev"] == "match":
                 self.maps += len(e["maps"])
             if nontrivial(e):
@@ -220,7 +230,10 @@ def describe(case, q, e):
     if e is None:
         return g
     if e["ev"] == "bfs":
-        return f"{g}: yield_{e['api']}(start={e['s']}, direction={e['d'] or None}) yielded {e['y']}"
+        how = {"atom": "Atom", "index": "int index", "label": "label", None: "Atom"}
+        arg = lambda a, f: f"atom {a} as {how.get(f, f)}" + (f" {a - 1}" if f == "index" else "")
+        return (f"{g}: yield_{e['api']}(start={arg(e['s'], e.get('fs'))}, "
+                f"direction={arg(e['d'], e.get('fd')) if e['d'] else None}) yielded {e['y']}")
     if e["ev"] == "ring":
         return f"{g}: is_bond_in_ring(bond {case['bonds'][e['b'] - 1][:2]}) = {e['res']}"
     if e["ev"] == "local":
@@ -350,6 +363,10 @@ def run(tier, seed, replay_path):
             nbad += nb
             keep += k
         del futs
+        need = [f"{r}:{f}" for r in ("start", "direction", "atom-argument") for f in G.FORMS] + \
+               ["direction passed as the integer 0", "start passed as the integer 0"]
+        if any(tally.forms.get(k, 0) < 20 for k in need):
+            raise tlc.MachineryError(f"vacuity guard: an AtomLike form was (almost) never used: {tally.forms}")
         t_lanes = time.time() - t0
         bad.sort(key=size_key)                  # smallest graphs first: the report is the smallest reproducer found
         keep.sort(key=lambda t: t["tid"])
@@ -385,7 +402,7 @@ def run(tier, seed, replay_path):
                 "valence listing, one match call with its full result list) validated by TLC against GraphQ; "
                 "distinct_nontrivial = distinct (graph, query) pairs whose answer is not forced (traversal with >= 2 yields, "
                 "ring flag, atom with a neighbour, pattern with >= 2 atoms)",
-           queries=tally.events, yields_validated=tally.yields, mappings_validated=tally.maps, graphs=tally.graphs,
+           queries=tally.events, atomlike_forms=tally.forms, yields_validated=tally.yields, mappings_validated=tally.maps, graphs=tally.graphs,
            max_atoms=tally.max_atoms, workload=tally.by_label, rejected_traces=nbad, deviations_caught=devs,
            exhaustive=True,
            exhaustive_scope=f"every labelled graph on <= {6 if tier == 'thorough' else 5} atoms x every start x every direction "
@@ -412,6 +429,8 @@ def run(tier, seed, replay_path):
         "may filter by type, so only validity of every returned map and presence of the cut-out position are demanded",
         "bond types of matching limited to those the matcher implements (Single, Double, Triple, Aromatic, Amide, Unknown)",
         "order of yields inside one distance level, order of result lists, exception-free construction are not constrained",
+        "atoms are passed to the queries as Atom objects, integer indices (0 included) and unique labels, rotating per query; "
+        "the Element form (first atom of that element) is not used",
         "trusted: TLC, the Json module, the adapter's position bookkeeping",
     ]
     rep.note(f"{tally.graphs} graphs (max {tally.max_atoms} atoms), {nq} queries {tally.events}, {tally.yields} yields, "
